@@ -221,6 +221,18 @@ def compare_map(c, xm, base, o):
                     return f"get_map_data('rotations') position {j} should be the fill value"
             elif not same_euler(flat[j], base["euler"][int(t)]):
                 return f"get_map_data('rotations') position {j} is not the rotation of original point {t}"
+        # the per-phase variant (needs a point group for every phase in the data, otherwise orix raises): same placement
+        v2, e2 = try_(lambda: xm.get_map_data("orientations"))
+        if e2 is None:
+            if tuple(v2.shape) != shp + (3,):
+                return f"get_map_data('orientations') shape {v2.shape} != {shp + (3,)}"
+            f2 = v2.reshape(-1, 3)
+            for j, t in enumerate(toks):
+                if t == "F":
+                    if not np.all(np.isnan(f2[j])):
+                        return f"get_map_data('orientations') position {j} should be the fill value"
+                elif not same_euler(f2[j], base["euler"][int(t)]):
+                    return f"get_map_data('orientations') position {j} is not the orientation of original point {t}"
         # a boolean attribute
         v, e = try_(lambda: xm.get_map_data("is_indexed", fill_value=False))
         if e is not None or tuple(v.shape) != shp:
